@@ -208,6 +208,9 @@ PROFILES = {
     'refuse': {'refuse': True},
     'keys': {'keys': True},
     'threads': {'threads': True},
+    'straggler': {'straggler': True},
+    # C17: calls on builders whose function has ended (sequentially: inside later code of the build and after build returns)
+    'stale': {'stale': True, 'p_crash': 0.2, 'p_clean': 0.1, 'raise': 20, 'builds': [2, 3]},
     'threaddup': {'threads': True, 'p_dup': 0.85},
     # base histories for fault injection (every eligible library call is a fault point)
     'fault': {'p_crash': 0.1, 'p_clean': 0.1, 'raise': 10, 'ext': [0, 1, 1, 2], 'builds': [2, 3],
@@ -471,8 +474,44 @@ def make_threads(seed, profile):
             'steps': steps}
 
 
+def make_straggler(seed, profile):
+    """C17: the root function hands its builder to another thread and returns (or raises) while that thread
+    keeps calling methods; later builds and clean reveal whether completed calls are in the record."""
+    rnd = random.Random('straggler:%s' % seed)
+    progs = dict(THREAD_PROGS)
+    pre = []
+    for i in range(rnd.randrange(0, 3)):
+        pre.append({'s': 'bf', 'p': rnd.choice([['o', 'x%d' % i], ['late', 'p%d' % i]]), 'f': 'fW', 'args': [i], 'catch': True})
+    post = []
+    for i in range(rnd.randrange(0, 3)):
+        if rnd.random() < 0.6:
+            post.append({'s': 'bf', 'p': ['o', 'y%d' % i], 'f': rnd.choice(['fW', 'fR']), 'args': [10 + i], 'catch': True})
+        else:
+            post.append({'s': 'q', 'kind': rnd.choice(['exists', 'list_dir', 'is_dir']), 'p': rnd.choice([['o'], ['zz']])})
+    end = {'s': 'raise'} if rnd.random() < 0.2 else {'s': 'return'}
+    ops = []
+    for i in range(rnd.randrange(2, 6)):
+        r = rnd.random()
+        if r < 0.4:
+            ops.append({'s': 'q', 'kind': rnd.choice(['exists', 'is_file', 'is_dir', 'list_dir', 'walk', 'get_size', 'read']),
+                        'p': rnd.choice([['late'], ['zz'], ['late', 'l0'], ['late', 'p0']])})
+        elif r < 0.8:
+            ops.append({'s': 'bf', 'p': ['late', 'l%d' % i], 'f': rnd.choice(['fW', 'fW2', 'fR']), 'args': [20 + i]})
+        else:
+            ops.append({'s': 'sb', 'f': rnd.choice(['fS', 'fSR']), 'args': [30 + i]})
+    root1 = pre + [{'s': 'handoff'}] + post + [end]
+    follow = pre + post + [dict(o, catch=True) for o in ops if o['s'] != 'q'] + [{'s': 'return'}]
+    steps = [{'op': 'build', 'name': 'B', 'vers': {}, 'root': root1, 'straggler': {'ops': ops, 'preempt': []}},
+             {'op': 'build', 'name': 'B', 'vers': {}, 'root': follow}]
+    if rnd.random() < 0.7:
+        steps.append({'op': 'clean', 'name': 'B'})
+    return {'id': '%s-%d' % (profile, seed), 'cache': ['k'], 'universe': [], 'threads': True, 'prog': progs, 'steps': steps}
+
+
 def make_scenario(seed, profile='general'):
     P = PROFILES[profile]
+    if P.get('straggler'):
+        return make_straggler(seed, profile)
     if P.get('threads'):
         return make_threads(seed, profile)
     if P.get('keys'):
@@ -584,7 +623,20 @@ def make_scenario(seed, profile='general'):
                 del vers[f]
             else:
                 vers[f] = rnd.choice(exotic_pool() if P.get('exotic_vers') else VERSION_TERMS)
-        steps.append({'op': 'build', 'name': 'B', 'vers': vers, 'root': root})
+        bstep = {'op': 'build', 'name': 'B', 'vers': vers, 'root': root}
+        if P.get('stale'):
+            # stale calls inside the build (after nested calls ended) and after build() returned
+            body = [st for st in root if st['s'] not in ('return', 'raise')]
+            tail = [st for st in root if st['s'] in ('return', 'raise')]
+            k = rnd.randrange(len(body) + 1)
+            bstep['root'] = body[:k] + [{'s': 'stale', 'last': 3,
+                                         'methods': rnd.sample(['exists', 'is_file', 'is_dir', 'list_dir', 'walk',
+                                                                'get_size', 'declare_read', 'read_text', 'read_binary',
+                                                                'build_file', 'subbuild',
+                                                                'build_file_with_comparison'], 6),
+                                         'p': rnd.choice([['sx'], ['d', 'sy'], ['x'], ['d', 'x']])}] + body[k:] + tail
+            bstep['stale_after'] = rnd.randrange(1, 1 << 30)
+        steps.append(bstep)
         if rnd.random() < P.get('p_clean', 0.15):
             steps.append({'op': 'clean', 'name': 'B'})
             if rnd.random() < P.get('p_double_clean', 0.1):
@@ -595,5 +647,7 @@ def make_scenario(seed, profile='general'):
         steps.append({'op': 'clean', 'name': 'B'})
         if rnd.random() < P.get('p_double_clean', 0.1):
             steps.append({'op': 'clean', 'name': 'B'})
-    return {'id': '%s-%d' % (profile, seed), 'cache': cache, 'universe': universe, 'oracle': orc,
-            'steps': steps}
+    sc = {'id': '%s-%d' % (profile, seed), 'cache': cache, 'universe': universe, 'oracle': orc, 'steps': steps}
+    if P.get('stale'):
+        sc['stale'] = True
+    return sc
